@@ -27,6 +27,17 @@ type retryBaseErr struct{ id int }
 
 func (e *retryBaseErr) Error() string { return fmt.Sprintf("base-%d", e.id) }
 
+// retryWrapErr is a NON-fatal error whose Unwrap chain contains a fatal error (fmt.Errorf("%w", FatalError(e)) in spirit): for
+// the loop it is a plain error (the operation did not return "an error wrapped by FatalError"); when a FatalError of it is
+// returned, the fully unwrapped error is this very value.  For the model it is just the base error with this id.
+type retryWrapErr struct {
+	id    int
+	inner error
+}
+
+func (e *retryWrapErr) Error() string { return fmt.Sprintf("wrapped-%d: %v", e.id, e.inner) }
+func (e *retryWrapErr) Unwrap() error { return e.inner }
+
 type retryOverrun struct{}
 
 // retryAbort is panicked out of value() when the closure keeps calling it although the script is exhausted, the context is
@@ -88,6 +99,9 @@ func (o retryOutcome) ret() (interface{}, error) {
 		return res, nil
 	}
 	var err error = &retryBaseErr{id: o.e}
+	if o.e%4 == 3 {
+		err = &retryWrapErr{id: o.e, inner: FatalError(&retryBaseErr{id: -o.e})}
+	}
 	for i := 0; i < o.depth; i++ {
 		err = FatalError(err)
 	}
@@ -108,6 +122,8 @@ func retryClassify(res interface{}, err error, ctxErr error) []int {
 	case nil:
 		return append(out, 0, 0)
 	case *retryBaseErr:
+		return append(out, 1, e.id)
+	case *retryWrapErr:
 		return append(out, 1, e.id)
 	case retryOverrun:
 		return append(out, 3, 0)
